@@ -886,7 +886,7 @@ SameComp(a, b, r) ==
     /\ MEq(a.Lam[r], b.Lam[r]) /\ VEq(a.nu[r], b.nu[r]) /\ LNEq(a.lnb[r], b.lnb[r])
     /\ MEq(a.Sig[r], b.Sig[r]) /\ FEq(a.dSig[r], b.dSig[r]) /\ VEq(a.mu[r], b.mu[r]) /\ LNEq(a.lnZ[r], b.lnZ[r])
 FrameStep ==
-    hist' # hist =>
+    (Len(hist') = Len(hist) + 1) =>        \* a step was appended (the trace specification also resets both variables)
       LET st == hist'[Len(hist')] IN
       /\ Len(heap') >= Len(heap)
       /\ \A id \in 1..Len(heap) :
